@@ -21,13 +21,54 @@ type Fault struct {
 	Of    int      `json:"of"`    // number of mentioned primitive settings
 }
 
-// Case is one Unpack into a pre-filled struct.
+// Step is one Unpack call of a history: its options, its configuration and
+// the fault injected into that configuration (or into the validator tags the
+// call reads).
+type Step struct {
+	Tag    string    `json:"tag,omitempty"`    // StructTag option: "" none given | config | alt | none (a tag name no field has)
+	VTag   string    `json:"vtag,omitempty"`   // ValidatorTag option: "" none given | validate | altv | none
+	Sep    string    `json:"sep,omitempty"`    // PathSep option ("" = none given)
+	Global string    `json:"global,omitempty"` // policy option: "" | replace | append | prepend
+	Cfg    *gen.Tree `json:"cfg"`
+	Fault  *Fault    `json:"fault,omitempty"`
+	Fresh  bool      `json:"fresh,omitempty"` // unpack into a newly pre-filled target instead of over the previous result
+	Reuse  bool      `json:"reuse,omitempty"` // unpack the *Config object of the previous step again (Cfg repeats its tree)
+}
+
+// Alias makes two places of the pre-filled target share one slice, map or
+// pointer: the value at Dst is assigned from Src after pre-filling. Paths are
+// field indices (through struct values) and element indices (through slices).
+// For slices Cut selects windows of the one backing array: 0 both places hold
+// the whole slice; k > 0 Dst holds Src[:k]; k < 0 Dst holds the whole slice
+// and Src is cut to Src[:-k] (so that its spare capacity is Dst's contents).
+type Alias struct {
+	Src []int `json:"src"`
+	Dst []int `json:"dst"`
+	Cut int   `json:"cut,omitempty"`
+}
+
+// Case is a history of Unpack calls into a pre-filled struct: the first call
+// is described by the fields of the case itself, later ones by More.
 type Case struct {
-	T      *gen.TD   `json:"t"`                // struct type (with policy tags, ignored/unexported/inline fields, catalogue types)
+	T      *gen.TD   `json:"t"`                // struct type as read under the tag names config/validate (with policy tags, ignored/unexported/inline fields, catalogue types)
 	P      *gen.TV   `json:"p"`                // pre-filled value
 	Cfg    *gen.Tree `json:"cfg"`              // the configuration; mentions a subset of the fields
 	Global string    `json:"global,omitempty"` // policy option passed to Unpack: "" | replace | append | prepend
 	Fault  *Fault    `json:"fault,omitempty"`
+
+	Alt      *gen.TD `json:"alt,omitempty"`  // the same Go structure as read under the tag names alt/altv (nil: the type carries no such tags)
+	Tag      string  `json:"tag,omitempty"`  // options of the first call, as in Step
+	VTag     string  `json:"vtag,omitempty"` //
+	Sep      string  `json:"sep,omitempty"`  //
+	More     []Step  `json:"more,omitempty"` // further calls, in order
+	Alias    []Alias `json:"alias,omitempty"`
+	Indirect bool    `json:"indirect,omitempty"` // Unpack receives a pointer to the pointer to the struct
+}
+
+// steps lists all calls of the history.
+func (c *Case) steps() []Step {
+	out := []Step{{Tag: c.Tag, VTag: c.VTag, Sep: c.Sep, Global: c.Global, Cfg: c.Cfg, Fault: c.Fault, Fresh: true}}
+	return append(out, c.More...)
 }
 
 var tagPolicies = []string{"replace", "append", "prepend", "merge"}
@@ -170,7 +211,15 @@ var (
 	cfgKeys    = []string{"k", "j", "a b", "$", "x,y", "K", "é", "n"}
 )
 
-type cgen struct{ t *rapid.T }
+// cgen draws configurations for one Unpack call: names are those of the view
+// the call reads, written below intermediate objects where the call's path
+// separator splits them.
+type cgen struct {
+	t         *rapid.T
+	sep       string          // PathSep of the call
+	noMention map[string]bool // Go paths (".F1.F0") of fields that must stay without a setting (aliases of non-flat values)
+	foreignOn bool            // also write settings under names only the other views read
+}
 
 func (g *cgen) pick(vs ...*gen.Tree) *gen.Tree {
 	return vs[rapid.IntRange(0, len(vs)-1).Draw(g.t, "leaf")]
@@ -217,8 +266,10 @@ func (g *cgen) leaf(t *gen.TD) *gen.Tree {
 // map values never contain nil (the statement only defines "not mentioned"
 // for fields). tv is the pre-filled value at this place (nil if there is
 // none): map keys are drawn from its keys as well, so that settings meet
-// existing entries.
-func (g *cgen) setting(t *gen.TD, tv *gen.TV) *gen.Tree {
+// existing entries. gp is the Go path of the place ("-" once it is no longer
+// reached through struct values only), others the descriptions of the same
+// type under the other views.
+func (g *cgen) setting(t *gen.TD, tv *gen.TV, gp string, others []*gen.TD) *gen.Tree {
 	if leafBase(t) != "" {
 		return g.leaf(t)
 	}
@@ -229,20 +280,26 @@ func (g *cgen) setting(t *gen.TD, tv *gen.TV) *gen.Tree {
 		}
 		return nil
 	}
+	var oe []*gen.TD
+	for _, o := range others {
+		if o = o.Shape(); o.Elem != nil {
+			oe = append(oe, o.Elem)
+		}
+	}
 	switch sh.Kind {
 	case "ptr":
-		return g.setting(sh.Elem, elemTV(0))
+		return g.setting(sh.Elem, elemTV(0), "-", oe)
 	case "slice":
 		n := rapid.IntRange(0, 3).Draw(g.t, "llen")
 		l := gen.List()
 		for i := 0; i < n; i++ {
-			l.Vals = append(l.Vals, g.setting(sh.Elem, elemTV(i)))
+			l.Vals = append(l.Vals, g.setting(sh.Elem, elemTV(i), "-", oe))
 		}
 		return l
 	case "array":
 		l := gen.List()
 		for i := 0; i < sh.N; i++ {
-			l.Vals = append(l.Vals, g.setting(sh.Elem, elemTV(i)))
+			l.Vals = append(l.Vals, g.setting(sh.Elem, elemTV(i), "-", oe))
 		}
 		return l
 	case "map":
@@ -265,28 +322,55 @@ func (g *cgen) setting(t *gen.TD, tv *gen.TV) *gen.Tree {
 				}
 			}
 			if o.Get(k) == nil {
-				o.Put(k, g.setting(sh.Elem, etv))
+				o.Put(k, g.setting(sh.Elem, etv, "-", oe))
 			}
 		}
 		return o
 	case "struct":
 		o := gen.Obj()
-		g.fill(o, sh, tv)
+		g.object(o, sh, tv, gp, others)
 		return o
 	}
 	panic("c13: no setting for kind " + sh.Kind)
 }
 
+// object fills the configuration object o a struct is unpacked from.
+func (g *cgen) object(o *gen.Tree, sh *gen.TD, tv *gen.TV, gp string, others []*gen.TD) {
+	g.fill(o, sh, tv, gp, others)
+	if g.foreignOn {
+		ns := map[string]bool{}
+		namespace(sh, g.sep, ns)
+		g.foreign(o, sh, tv, ns, others)
+	}
+}
+
+func fieldOthers(others []*gen.TD, i int) []*gen.TD {
+	var out []*gen.TD
+	for _, o := range others {
+		if o = o.Shape(); i < len(o.Fields) {
+			out = append(out, o.Fields[i].T)
+		}
+	}
+	return out
+}
+
 // fill mentions a random subset of the struct's fields in o.
-func (g *cgen) fill(o *gen.Tree, sh *gen.TD, tv *gen.TV) {
+func (g *cgen) fill(o *gen.Tree, sh *gen.TD, tv *gen.TV, gp string, others []*gen.TD) {
 	for i := range sh.Fields {
 		f := &sh.Fields[i]
 		var ftv *gen.TV
 		if tv != nil && i < len(tv.Elems) {
 			ftv = tv.Elems[i]
 		}
+		fgp := "-" // "-": not reached through struct values only
+		if gp != "-" {
+			fgp = gp + "." + f.Name
+		}
 		if f.Inline {
-			g.fill(o, f.T.Shape(), ftv)
+			g.fill(o, f.T.Shape(), ftv, fgp, fieldOthers(others, i))
+			continue
+		}
+		if g.noMention[fgp] {
 			continue
 		}
 		r := rapid.IntRange(0, 99).Draw(g.t, "mention")
@@ -294,12 +378,61 @@ func (g *cgen) fill(o *gen.Tree, sh *gen.TD, tv *gen.TV) {
 		case f.Ignore || f.Unexp:
 			// a setting under the name of a field Unpack must skip
 			if r < 35 {
-				o.Put(f.ConfigName(), g.setting(f.T, ftv))
+				putAt(o, f.ConfigName(), g.sep, g.setting(f.T, ftv, fgp, fieldOthers(others, i)))
 			}
 		case r < 70:
-			o.Put(f.ConfigName(), g.setting(f.T, ftv))
+			putAt(o, f.ConfigName(), g.sep, g.setting(f.T, ftv, fgp, fieldOthers(others, i)))
 		case r < 78:
-			o.Put(f.ConfigName(), gen.Nil()) // a nil setting counts as not mentioned
+			putAt(o, f.ConfigName(), g.sep, gen.Nil()) // a nil setting counts as not mentioned
+		}
+	}
+}
+
+// foreign adds settings no field reads in this call: under the name a field
+// has in another view, and under the other spelling (one key with the
+// separator in it / nested objects) of a name the separator of the call
+// splits or does not split. A key the view reads itself (ns) is never used.
+func (g *cgen) foreign(o *gen.Tree, sh *gen.TD, tv *gen.TV, ns map[string]bool, others []*gen.TD) {
+	free := func(key string) bool { return !ns[key] && o.Get(key) == nil }
+	for i := range sh.Fields {
+		f := &sh.Fields[i]
+		var ftv *gen.TV
+		if tv != nil && i < len(tv.Elems) {
+			ftv = tv.Elems[i]
+		}
+		if f.Inline {
+			g.foreign(o, f.T.Shape(), ftv, ns, fieldOthers(others, i))
+			continue
+		}
+		r := rapid.IntRange(0, 99).Draw(g.t, "foreign")
+		if r >= 30 {
+			continue
+		}
+		var names []string
+		for _, ot := range others {
+			if ot = ot.Shape(); i < len(ot.Fields) && !ot.Fields[i].Inline {
+				names = append(names, ot.Fields[i].ConfigName())
+			}
+		}
+		if len(names) > 0 {
+			name := names[r%len(names)]
+			if free(firstSegment(name, g.sep)) && free(name) {
+				o.Put(name, g.setting(f.T, ftv, "-", nil))
+			}
+		}
+		// the spelling of the field's own name that this call does not read
+		name := f.ConfigName()
+		for _, sep := range []string{".", "/"} {
+			if !strings.Contains(name, sep) {
+				continue
+			}
+			if g.sep == sep {
+				if free(name) {
+					o.Put(name, g.setting(f.T, ftv, "-", nil)) // one literal key; the call looks below intermediate objects
+				}
+			} else if free(firstSegment(name, sep)) {
+				putAt(o, name, sep, g.setting(f.T, ftv, "-", nil)) // nested objects; the call looks for one literal key
+			}
 		}
 	}
 }
@@ -318,6 +451,7 @@ type site struct {
 	path   []string
 	leaf   bool
 	before int // mentioned primitive settings processed before this one
+	top    int // index of the field of the outermost struct through which the setting is read
 }
 
 func stripPtr(t *gen.TD) *gen.TD {
@@ -330,29 +464,32 @@ func stripPtr(t *gen.TD) *gen.TD {
 // sites lists the mentioned settings in the order Unpack processes them:
 // struct fields in declaration order (inline structs in place), map keys
 // sorted, list elements by index. Settings of skipped fields are no sites.
-func sites(t *gen.TD, cfg *gen.Tree) []site {
+// t is the view of the call, sep its path separator.
+func sites(t *gen.TD, cfg *gen.Tree, sep string) []site {
 	var out []site
 	leaves := 0
+	top := -1
 	var visit func(t *gen.TD, parent *gen.Tree, pos int, fd *gen.FD, owner, fname string, path []string)
-	var fields func(st *gen.TD, kind string, o *gen.Tree, path []string)
-	fields = func(sh *gen.TD, kind string, o *gen.Tree, path []string) {
+	var fields func(st *gen.TD, kind string, o *gen.Tree, path []string, outer bool)
+	fields = func(sh *gen.TD, kind string, o *gen.Tree, path []string, outer bool) {
 		for i := range sh.Fields {
 			f := &sh.Fields[i]
+			if outer {
+				top = i
+			}
 			if f.Ignore || f.Unexp {
 				continue
 			}
 			if f.Inline {
-				fields(f.T.Shape(), f.T.Kind, o, path)
+				fields(f.T.Shape(), f.T.Kind, o, path, false)
 				continue
 			}
-			for p, k := range o.Keys {
-				if k == f.ConfigName() && o.Vals[p].K != "nil" {
-					var fd *gen.FD
-					if kind == "struct" {
-						fd = f
-					}
-					visit(f.T, o, p, fd, kind, f.Name, append(append([]string{}, path...), k))
+			if parent, p := locate(o, f.ConfigName(), sep); parent != nil && parent.Vals[p].K != "nil" {
+				var fd *gen.FD
+				if kind == "struct" {
+					fd = f
 				}
+				visit(f.T, parent, p, fd, baseKind(kind), f.Name, append(append([]string{}, path...), f.ConfigName()))
 			}
 		}
 	}
@@ -360,7 +497,7 @@ func sites(t *gen.TD, cfg *gen.Tree) []site {
 		t = stripPtr(t)
 		s := parent.Vals[pos]
 		if leafBase(t) != "" {
-			out = append(out, site{parent, pos, t, fd, owner, fname, path, true, leaves})
+			out = append(out, site{parent, pos, t, fd, owner, fname, path, true, leaves, top})
 			leaves++
 			return
 		}
@@ -370,13 +507,13 @@ func sites(t *gen.TD, cfg *gen.Tree) []site {
 			if s.K != "obj" {
 				return
 			}
-			out = append(out, site{parent, pos, t, fd, owner, fname, path, false, leaves})
-			fields(sh, t.Kind, s, path)
+			out = append(out, site{parent, pos, t, fd, owner, fname, path, false, leaves, top})
+			fields(sh, t.Kind, s, path, false)
 		case "map":
 			if s.K != "obj" {
 				return
 			}
-			out = append(out, site{parent, pos, t, fd, owner, fname, path, false, leaves})
+			out = append(out, site{parent, pos, t, fd, owner, fname, path, false, leaves, top})
 			idx := make([]int, len(s.Keys))
 			for i := range idx {
 				idx[i] = i
@@ -394,7 +531,7 @@ func sites(t *gen.TD, cfg *gen.Tree) []site {
 			}
 		}
 	}
-	fields(t.Shape(), t.Kind, cfg, nil)
+	fields(t.Shape(), t.Kind, cfg, nil, true)
 	return out
 }
 
@@ -463,19 +600,32 @@ func isNumericBase(b string) bool {
 	return false
 }
 
-// inject makes one setting (or one absent field) invalid and describes it.
-func inject(t *rapid.T, c *Case) {
-	ss := sites(c.T, c.Cfg)
+// inject makes one setting (or one absent field) of a call invalid and
+// describes it. v is the view of the call (validator tags are written into
+// the view and into the description they come from); absent tells whether the
+// pre-filled value may be edited to violate a validator of an unmentioned
+// field (only sound for a call that starts from the pre-filled value); the
+// root fields listed in spare are left alone.
+func inject(t *rapid.T, c *Case, st *Step, v *view, absent bool, spare map[int]bool) {
+	ss := sites(v.td, st.Cfg, st.Sep)
 	nl := countLeaves(ss)
+	setValidate := func(fd *gen.FD, tag string) bool {
+		src := v.vsrc[fd]
+		if src == nil {
+			return false // the call reads a validator tag name no field has
+		}
+		fd.Validate, src.Validate = tag, tag
+		return true
+	}
 	// a validator on a field the configuration does not mention: the pre-filled value is made to violate it
-	if c.T.Kind == "struct" && rapid.IntRange(0, 7).Draw(t, "absentfault") == 0 {
+	if absent && v.td.Kind == "struct" && rapid.IntRange(0, 7).Draw(t, "absentfault") == 0 {
 		var cand []int
-		for i := range c.T.Fields {
-			f := &c.T.Fields[i]
-			if f.Inline || f.Ignore || f.Unexp {
+		for i := range v.td.Fields {
+			f := &v.td.Fields[i]
+			if f.Inline || f.Ignore || f.Unexp || spare[i] || v.vsrc[f] == nil {
 				continue
 			}
-			if s := c.Cfg.Get(f.ConfigName()); s != nil && s.K != "nil" {
+			if s := lookup(st.Cfg, f.ConfigName(), st.Sep); s != nil && s.K != "nil" {
 				continue
 			}
 			if f.T.Kind == "ptr" || (f.T.Shape() == f.T && isNumericBase(leafBase(f.T))) {
@@ -484,22 +634,22 @@ func inject(t *rapid.T, c *Case) {
 		}
 		if len(cand) > 0 {
 			i := cand[maxOf2(t, len(cand))]
-			f := &c.T.Fields[i]
+			f := &v.td.Fields[i]
 			if f.T.Kind == "ptr" {
-				f.Validate = "required"
+				setValidate(f, "required")
 				c.P.Elems[i] = &gen.TV{Nil: true}
 			} else {
-				f.Validate = "nonzero"
+				setValidate(f, "nonzero")
 				c.P.Elems[i] = &gen.TV{}
 			}
 			// settings of all fields declared before it have been processed by then
 			before := 0
 			for _, s := range ss {
-				if s.leaf && len(s.path) > 0 && topFieldIndex(c.T, s.path[0]) < i {
+				if s.leaf && s.top < i {
 					before++
 				}
 			}
-			c.Fault = &Fault{Kind: "val-absent", Path: []string{f.ConfigName()}, Index: before, Of: nl}
+			st.Fault = &Fault{Kind: "val-absent", Path: []string{f.ConfigName()}, Index: before, Of: nl}
 			return
 		}
 	}
@@ -522,15 +672,14 @@ func inject(t *rapid.T, c *Case) {
 	case s.t.Kind == kUnpStr:
 		f.Kind = "unpacker"
 		set(gen.Str("bad"))
-	case s.fd != nil && s.t.Shape() == s.t && isNumericBase(leafBase(s.t)) && rapid.IntRange(0, 2).Draw(t, "vt") == 0:
+	case s.fd != nil && s.t.Shape() == s.t && isNumericBase(leafBase(s.t)) && rapid.IntRange(0, 2).Draw(t, "vt") == 0 && setValidate(s.fd, "nonzero"):
 		f.Kind = "val-tag"
-		s.fd.Validate = "nonzero"
 		set(gen.Int(0))
 	default:
 		f.Kind = "conv"
 		set(badValue(t, s.t))
 	}
-	c.Fault = f
+	st.Fault = f
 }
 
 // topFieldIndex returns the index of the top-level field (inline structs
@@ -586,21 +735,30 @@ func genCase(t *rapid.T) Case {
 	} else {
 		c.T = tg.structT(runlog.Pick(3, 4))
 	}
+	if c.T.Kind == "struct" && rapid.IntRange(0, 5).Draw(t, "alias") == 0 {
+		genFieldAlias(t, &c)
+	}
 	c.P = gen.GenTV(t, &gen.TDCfg{NilPtrElems: true}, c.T, false)
+	if rapid.IntRange(0, 11).Draw(t, "ealias") == 0 {
+		genElemAlias(t, &c)
+	}
 	c.Global = rapid.SampledFrom([]string{"", "", "replace", "append", "prepend"}).Draw(t, "global")
-	cg := &cgen{t: t}
+	v := makeView(c.T, nil, "", "")
+	cg := &cgen{t: t, noMention: noMentionSet(&c)}
 	c.Cfg = gen.Obj()
-	cg.fill(c.Cfg, c.T.Shape(), c.P)
+	cg.object(c.Cfg, v.td.Shape(), c.P, "", nil)
 	if rapid.IntRange(0, 9).Draw(t, "fault") < 3 {
-		inject(t, &c)
+		st := c.steps()[0]
+		inject(t, &c, &st, v, true, aliasRoots(&c))
+		c.Fault = st.Fault
 	}
 	return c
 }
 
 // regexpFromContainer recognises the class of finding D51: a field of type
 // *regexp.Regexp whose setting is an object or a list.
-func regexpFromContainer(c *Case) bool {
-	for _, s := range sites(c.T, c.Cfg) {
+func regexpFromContainer(view *gen.TD, cfg *gen.Tree, sep string) bool {
+	for _, s := range sites(view, cfg, sep) {
 		if s.leaf && leafBase(s.t) == "regexp" && s.parent.Vals[s.pos].IsCont() {
 			return true
 		}
